@@ -258,6 +258,7 @@ class MgmComputation(VariableComputation):
         self._neighbors_gains = {}  # type: Dict[str, MgmGainMessage]
         self._gain = None
         self._new_value = None
+        self._new_cost = None
 
         self.stop_cycle = computation_definition.algo.param_value("stop_cycle")
         self.break_mode = computation_definition.algo.param_value("break_mode")
@@ -348,34 +349,37 @@ class MgmComputation(VariableComputation):
                 self.logger.debug(
                     f"Received values from all neighbors : {self._neighbors_values}"
                 )
-            # Compute the current_cost on the first step (initialization) of
-            # the algorithm
-            if self.current_cost is None:
-                reduced_cs = []
-                concerned_vars = set()
-                cost = 0
-                for c in self.utilities:
-                    asgt = filter_assignment_dict(self._neighbors_values, c.dimensions)
-                    reduced_cs.append(c.slice(asgt))
-                    cost = functools.reduce(
-                        operator.add, [f(self.current_value) for f in reduced_cs]
-                    )
-                    # Cost for variable, if any:
-                    concerned_vars.update(c.dimensions)
+            # Compute the current_cost with the values our neighbors have in
+            # this cycle: it changes when they move, even if we do not.
+            reduced_cs = []
+            concerned_vars = set()
+            cost = 0
+            for c in self.utilities:
+                asgt = filter_assignment_dict(self._neighbors_values, c.dimensions)
+                reduced_cs.append(c.slice(asgt))
+                cost = functools.reduce(
+                    operator.add, [f(self.current_value) for f in reduced_cs]
+                )
+                # Cost for variable, if any:
+                concerned_vars.update(c.dimensions)
 
-                for v in concerned_vars:
-                    if v.name == self.name:
-                        cost += v.cost_for_val(self.current_value)
-                    else:
-                        cost += v.cost_for_val(self._neighbors_values[v.name])
+            for v in concerned_vars:
+                if v.name == self.name:
+                    cost += v.cost_for_val(self.current_value)
+                else:
+                    cost += v.cost_for_val(self._neighbors_values[v.name])
 
-                self.value_selection(self.current_value, cost)
+            self.value_selection(self.current_value, cost)
 
             new_values, val_cost = self._compute_best_value()
-            self._gain = self.current_cost - val_cost
-            if ((self._mode == "min") & (self._gain > 0)) or (
-                (self._mode == "max") & (self._gain < 0)
-            ):
+            # The gain is the improvement of the local cost: positive when
+            # moving is beneficial, for both objectives.
+            if self._mode == "min":
+                self._gain = self.current_cost - val_cost
+            else:
+                self._gain = val_cost - self.current_cost
+            self._new_cost = val_cost
+            if self._gain > 0:
                 self._new_value = random.choice(new_values)
             else:
                 self._new_value = self.current_value
@@ -458,16 +462,16 @@ class MgmComputation(VariableComputation):
             asgt = filter_assignment_dict(self._neighbors_values, c.dimensions)
             reduced_cs.append(c.slice(asgt))
             concerned_vars.update(c.dimensions)
+        # The cost of our own candidate value is part of what we optimize
         var_val, rel_val = find_arg_optimal(
             self.variable,
-            lambda x: functools.reduce(operator.add, [f(x) for f in reduced_cs]),
+            lambda x: functools.reduce(operator.add, [f(x) for f in reduced_cs])
+            + self.variable.cost_for_val(x),
             self._mode,
         )
-        # Add the cost for each variable value if any
+        # Add the cost for each neighbor variable value if any
         for var in concerned_vars:
-            if var.name == self.name:
-                rel_val += var.cost_for_val(self.current_value)
-            else:
+            if var.name != self.name:
                 rel_val += var.cost_for_val(self._neighbors_values[var.name])
 
         return var_val, rel_val
@@ -521,7 +525,7 @@ class MgmComputation(VariableComputation):
                         f"Selects new value {self._new_value}, "
                         f"best gain: {self._gain} > {gains}"
                     )
-                self.value_selection(self._new_value, self.current_cost - self._gain)
+                self.value_selection(self._new_value, self._new_cost)
             elif self._gain == max_neighbors:
                 # same gain, break ties through variable ordering to
                 # determine which variable can change its value
@@ -560,7 +564,7 @@ class MgmComputation(VariableComputation):
                         f"Won random ties for equal gain {self._gain} , "
                         f"selects new value {self._new_value} - {ties}"
                     )
-                self.value_selection(self._new_value, self.current_cost - self._gain)
+                self.value_selection(self._new_value, self._new_cost)
             else:
                 if self.logger.isEnabledFor(logging.INFO):
                     self.logger.info(
@@ -582,7 +586,7 @@ class MgmComputation(VariableComputation):
                         f"Won lexic ties for equal gain {self._gain} , "
                         f"selects new value {self._new_value} - {ties}"
                     )
-                self.value_selection(self._new_value, self.current_cost - self._gain)
+                self.value_selection(self._new_value, self._new_cost)
             else:
                 if self.logger.isEnabledFor(logging.INFO):
                     self.logger.info(
